@@ -49,7 +49,7 @@ def gen_spec(rnd, stmt_ok=False, shapes=('direct', 'alias_before', 'alias_after'
         levels.append(lv)
     spec = dict(levels=levels, paren=rnd.random() < 0.5, stmt=None)
     if stmt_ok and rnd.random() < 0.5:
-        spec['stmt'] = dict(kw='k', sep=';', two_lr_alts=rnd.random() < 0.7)
+        spec['stmt'] = dict(kw='k', sep=';', two_lr_alts=rnd.random() < 0.7, decl_rule=rnd.random() < 0.6)
     return spec
 
 
@@ -105,6 +105,10 @@ def level_rules(spec):
     if st:
         e0 = ('call', levels[0]['rule'])
         decl = ('seq', (('tok', st['kw']), ('cut',), ('tok', 'n'), ('tok', '='), e0))
+        declrule = None
+        if st.get('decl_rule'):
+            declrule = ('decl', decl)   # the cut is confined to its own rule
+            decl = ('call', 'decl')
         if st['two_lr_alts']:
             ss = ('alt', (('seq', (('call', 'ss'), ('tok', st['sep']), decl)),
                           ('seq', (('call', 'ss'), ('tok', st['sep']), e0)), decl, e0))
@@ -112,6 +116,8 @@ def level_rules(spec):
             ss = ('alt', (('seq', (('call', 'ss'), ('tok', st['sep']), ('call', 'st'))), ('call', 'st')))
             rules.insert(0, ('st', ('alt', (decl, e0))))
         rules.insert(0, ('ss', ss))
+        if declrule:
+            rules.insert(1, declrule)
         # 'k' is also an atom, so that the committed alternative can fail after its cut
         rules[-1] = ('atom', ('alt', tuple(atoms + [('tok', st['kw'])])))
     return rules
